@@ -55,7 +55,12 @@ def model_runs(quick):
 
 # ---------------------------------------------------------------- concrete instantiations
 
-VALUE_KINDS = ["str", "int", "float", "npstr", "series_odd"]
+# (tuples as elements are not judged: the quantifier lists strings, numbers and table rows; np.asarray turns a list of
+#  equal-length tuples into a 2-d array whose cells are counted one by one - observed, recorded in DESIGN.md 9.4)
+VALUE_KINDS = ["str", "int", "float", "npstr", "series_odd", "oddint", "oddfloat"]
+# distinct numbers that are easily confused: equal Python hashes (-1 / -2, 0 / 2**61-1), equal after rounding, signed zero apart
+ODDINT = [-1, -2, 0, 2 ** 61 - 1, 2 ** 61, -3, 1, 10 ** 15, 10 ** 15 + 1, 7, 8, 9]
+ODDFLOAT = [-1.0, -2.0, 0.1, 0.1 + 2 ** -55, 1e-300, 1.5, 1e16, 1e16 + 2, 2.5, 3.5, 4.5, 5.5]
 STRS = ["CASSLGQAYEQYF", "CASSLGQAYEQF", "CAS", "", "x y", "CASSLGQAYEQYF "]
 # variants 2-3 put whole numbers into the first column: small ints and ids of seven digits (distinct only in the 7th significant
 # digit). Floats are outside the property's quantifier (their text contains the join character '.').
@@ -70,6 +75,10 @@ def sample_of(vals, kind):
         return [v * 10 for v in vals]
     if kind == "float":
         return [v + 0.5 for v in vals]
+    if kind == "oddint":
+        return [ODDINT[v - 1] for v in vals]
+    if kind == "oddfloat":
+        return [ODDFLOAT[v - 1] for v in vals]
     if kind == "npstr":
         return np.array([STRS[v - 1] for v in vals])
     if kind == "series_odd":
@@ -171,7 +180,7 @@ def make_sessions(ctx, n):
         if k in ("one", "two"):
             large = sid % 20 in (1, 5, 6, 10)              # samples far beyond the exhaustive bounds (size thresholds, bulk code paths)
             a = zipf_sample(ctx.rng, ctx.rng.choice([1030, 2500, 5000]) if large else ctx.rng.randint(2, 40), ctx.rng.randint(1, 12))
-            vk = ctx.rng.choice(["int", "float"])
+            vk = ctx.rng.choice(["int", "float", "oddint", "oddfloat"])
             if k == "two":
                 b = zipf_sample(ctx.rng, ctx.rng.choice([700, 3000]) if large else ctx.rng.randint(1, 40), ctx.rng.randint(1, 12))
                 call = lambda: prs.pc(sample_of(a, vk), sample_of(b, vk))      # noqa: E731
